@@ -1,9 +1,10 @@
 SPECIFICATION Spec
 CONSTANTS
   ObjRecs <- MC_ObjRecs
-  ConRecs <- MC_ConRecs
+  ConRecs <- MC_ConRecs2
   MaxCons = 2
   Methods <- MC_Methods
+  OptSets <- MC_OptSets
   FaultExcs <- MC_Excs
   OnlySuccess = FALSE
   EditInvalidates = TRUE
